@@ -1,9 +1,15 @@
 (* C04 - The JSON-RPC codec is loss-free and conforms to each version's wire format.
    Models: lib/Json.v (json.dumps / json.loads as used), model/Codec.v (jsonrpc.py:40-575).
-   Tier 1 (payload level) and tier 2 (every encoded message is printable ASCII without newline)
-   are proved; the text-level round trip loads (print v) = v is tied by the byte-exact
-   correspondence in both directions only (partial). *)
-From AV Require Import Base Utf8 Json Gen_jsonrpc Codec CodecProofs.
+   Tier 1 (payload level), tier 2 (every encoded message is printable ASCII without newline) and
+   tier 3 (the text level: json.loads (json.dumps v) = v, down to the bytes of the message) are proved.
+   Tier 3 holds for every value within the limits the decoder enforces (nesting depth, digits of an
+   integer), whose strings do not contain a high surrogate immediately followed by a low one (such a
+   pair of escapes is read back as ONE astral character - Python's json does the same), whose object
+   keys are distinct, and whose float tokens satisfy the float oracle [FloatOk] (the text repr(x) is
+   read back as itself - proved for the shapes float.__repr__ produces in the examples, assumed in
+   general: it is float(repr x) = x).  That json.dumps / json.loads ARE lib/Json.v's print / loads is
+   tied by the byte-exact correspondence in both directions. *)
+From AV Require Import Base Utf8 Json Gen_jsonrpc Codec CodecProofs JsonRoundTrip CodecText.
 
 Theorem C04_facts :
   allow_batches V1 = false /\ allow_batches V2 = true /\ allow_batches Loose = true /\
@@ -73,6 +79,58 @@ Theorem C04_print_ascii_no_newline : forall v, wf_json v = true ->
   forallb printable (encode_payload v) = true /\ ~ In 10%N (encode_payload v).
 Proof. intros v H. split; [now apply print_ascii|now apply print_no_newline]. Qed.
 
+(* tier 3: the printer and the parser are inverse on the text level ... *)
+Theorem C04_text_roundtrip : forall md, (1 <= md)%nat -> forall v depth,
+  RT md v -> (jdepth v <= depth)%nat -> loads md depth (print v) = POk v [].
+Proof. intros md Hmd v depth. exact (loads_print md Hmd v depth). Qed.
+
+(* ... in particular for strings: every escape the printer writes is read back, lone surrogates included *)
+Theorem C04_string_roundtrip : forall s fuel acc rest,
+  forallb (fun c => (c <? 1114112)%N) s = true -> no_pair s = true -> (length s < fuel)%nat ->
+  scan_string fuel (flat_map esc_char s ++ 34%N :: rest) acc = POk (rev acc ++ s) rest.
+Proof. exact scan_string_print. Qed.
+
+(* ... and down to the bytes of a message: what encode_payload writes, message_to_item reads back *)
+Theorem C04_wire_roundtrip : forall d j,
+  RT json_max_digits j -> wf_json j = true -> (jdepth j <= json_max_depth)%nat ->
+  message_to_item d (encode_payload j) = DRes (payload_to_item d j).
+Proof. exact item_text_roundtrip. Qed.
+
+Theorem C04_wire_roundtrip_request : forall e d meth args rid payload,
+  compat e d = true -> is_args args = true -> ok_id d rid = true ->
+  request_payload e meth args rid = Some payload ->
+  RT json_max_digits payload -> wf_json payload = true -> (jdepth payload <= json_max_depth)%nat ->
+  message_to_item d (encode_payload payload) =
+  DRes (MItem (if is_null rid then INotification meth args else IRequest meth args rid)).
+Proof.
+  intros e d meth args rid payload H1 H2 H3 H4 H5 H6 H7.
+  rewrite (item_text_roundtrip d payload H5 H6 H7). f_equal. exact (roundtrip_request e d meth args rid payload H1 H2 H3 H4).
+Qed.
+
+Theorem C04_wire_roundtrip_result : forall e d v rid, compat e d = true -> ok_id d rid = true ->
+  RT json_max_digits (response_payload e v rid) -> wf_json (response_payload e v rid) = true ->
+  (jdepth (response_payload e v rid) <= json_max_depth)%nat ->
+  message_to_item d (encode_payload (response_payload e v rid)) = DRes (MItem (IResponse (RResult v) rid)).
+Proof.
+  intros e d v rid H1 H2 H3 H4 H5. rewrite (item_text_roundtrip d _ H3 H4 H5). f_equal. exact (roundtrip_result e d v rid H1 H2).
+Qed.
+
+(* the float oracle holds for what float.__repr__ produces (instances) *)
+Example C04_float_oracle_instances : forall md,
+  FloatOk md [49; 46; 53]%N /\ FloatOk md [45; 50; 46; 53; 101; 45; 48; 55]%N /\ FloatOk md [49; 101; 43; 50; 50]%N /\
+  FloatOk md [110; 97; 110]%N /\ FloatOk md [105; 110; 102]%N /\ FloatOk md [45; 105; 110; 102]%N.
+Proof.
+  intros md. split; [apply float_ok_1_5|]. split; [apply float_ok_neg_2_5em07|]. split; [apply float_ok_1ep22|].
+  split; [apply float_ok_nan|]. split; [apply float_ok_inf|apply float_ok_neg_inf].
+Qed.
+
+(* non-vacuity of tier 3: a nested value with escapes, a lone surrogate, an astral character, a negative integer *)
+Example C04_ex_text :
+  let v := JObj [([107]%N, JArr [JInt (-42); JStr [34; 10; 233; 55357; 128512]%N; JNull; JBool true; JFloat [49; 46; 53]%N]);
+                 ([120; 34]%N, JObj [])] in
+  loads 4300 100 (print v) = POk v [].
+Proof. vm_compute. reflexivity. Qed.
+
 (* non-vacuity *)
 Example C04_ex :
   let args := JObj [([107]%N, JArr [JStr [55296; 233]%N; JInt (-5); JFloat [49; 46; 53]%N])] in
@@ -93,3 +151,8 @@ Print Assumptions C04_autodetect_request.
 Print Assumptions C04_autodetect_response.
 Print Assumptions C04_autodetect_batch.
 Print Assumptions C04_print_ascii_no_newline.
+Print Assumptions C04_text_roundtrip.
+Print Assumptions C04_string_roundtrip.
+Print Assumptions C04_wire_roundtrip.
+Print Assumptions C04_wire_roundtrip_request.
+Print Assumptions C04_wire_roundtrip_result.
